@@ -15,12 +15,13 @@ Proof. reflexivity. Qed.
 Lemma rix_olds h h' g x s s' :
   (forall k r', room_of h' k = Some r' -> exists r, room_of h k = Some r /\ r_transient r' = r_transient r) ->
   s_kind s' = s_kind s -> s_conn s' = s_conn s -> (is_virtual (s_kind s) = true \/ s_room s' = s_room s) ->
-  (forall v, replayT (s_pending s') v = replayT (s_pending s) v) ->
+  (forall v, replayT (s_pending s') v = replayT (s_pending s) v) -> (hello_free (s_pending s) -> hello_free (s_pending s')) ->
   RIx h g x s -> RIx h' g x s'.
 Proof.
-  intros R K C Rm P [Bn Vc Rp]. constructor.
+  intros R K C Rm P Hf [Bn Vc Hh Rp]. constructor.
   - intros c Hc. apply Bn. congruence.
   - intros V. rewrite C. apply Vc. congruence.
+  - auto.
   - intros V. rewrite K in V. specialize (Rp V). destruct Rm as [V'|Rm]; [congruence|]. rewrite Rm, P.
     destruct (s_room s) as [k|]; [|exact Rp]. destruct Rp as (Nz & d & Hd & Hr). split; [exact Nz|]. exists d. split; [exact Hd|].
     intros r' Hr'. destruct (R k r' Hr') as (r & Hr0 & T). rewrite T. now apply Hr.
@@ -30,10 +31,10 @@ Lemma ri_nr (ex : N -> Prop) h h' g :
   RI h g -> NR ex h h' -> (forall x s', ex x -> get_sess h' x = Some s' -> RIx h' g x s') -> RI h' g.
 Proof.
   intros [S F] (Ss & R & Nx) Hex. constructor.
-  - intros x s' Hs'. destruct (Ss x s' Hs') as [E|[(s & Hs & K & C & Rm & [_ P])|[V C]]].
+  - intros x s' Hs'. destruct (Ss x s' Hs') as [E|[(s & Hs & K & C & Rm & (_ & P & Hf))|(V & C & Hf)]].
     + now apply Hex.
     + eapply rix_olds; eauto.
-    + constructor; [intros c Hc; congruence|auto|intros V'; congruence].
+    + constructor; [intros c Hc; congruence|auto|exact Hf|intros V'; congruence].
   - intros x Hx. apply F. lia.
 Qed.
 
@@ -74,6 +75,9 @@ Record sent (h : hub) (g : ghost) (h' : hub) (g' : ghost) (m : smsg) (T : N -> b
   st_bind : forall c, g_bind g' c = g_bind g c;
   st_core : forall y, coreo h' g' y = if T y then option_map (upd4 m) (coreo h g y) else coreo h g y;
   st_dead : forall y, get_sess h y = None -> g_rep g' y = g_rep g y;
+  st_other : forall y, T y = false -> g_rep g' y = g_rep g y;
+  st_hf : (forall y s, get_sess h y = Some s -> hello_free (s_pending s)) ->
+          forall y s', get_sess h' y = Some s' -> hello_free (s_pending s');
 }.
 
 Lemma send1 m h g x s : relm m -> SI h g -> get_sess h x = Some s -> is_virtual (s_kind s) = false ->
@@ -92,12 +96,17 @@ Proof.
       * destruct (get_sess h y) as [t|]; [|reflexivity]. cbn [option_map]. unfold core4. cbn [g_rep].
         destruct (N.eqb_spec y x); [contradiction|reflexivity].
     + intros y Hy. cbn [g_rep]. destruct (N.eqb_spec y x) as [->|]; [congruence|reflexivity].
+    + intros y Hy. cbn [g_rep]. rewrite Hy. reflexivity.
+    + intros HF y t. rewrite get_put_sessT. destruct (N.eqb y x); [intros E; injection E as <-; now apply (HF x)|apply HF].
   - change (gouts g []) with g. constructor; try reflexivity.
     + intros y t. rewrite get_put_sessT. destruct (N.eqb_spec y x) as [->|Hne]; [|intros Hy; apply (Si y t Hy)].
       intros E. injection E as <-. cbn. split; [intros c' Hc'; congruence|intros Hn; congruence].
     + intros y. unfold coreo. rewrite get_put_sessT. destruct (N.eqb_spec y x) as [->|Hne]; [|reflexivity].
       rewrite Hs. cbn [option_map]. unfold core4, upd4. cbn [s_kind s_conn s_room s_pending sess_pending upd_sess].
       rewrite replayT_app. reflexivity.
+    + intros HF y t. rewrite get_put_sessT. destruct (N.eqb y x); [|apply HF]. intros E. injection E as <-.
+      cbn [s_pending sess_pending upd_sess]. intros u v Hin. apply in_app_or in Hin as [Hin|[Hin|[]]]; [exact (HF x s Hs u v Hin)|].
+      subst m. destruct Hm.
 Qed.
 
 Definition idem (m : smsg) : Prop := forall v, tapply (tapply v m) m = tapply v m.
@@ -118,7 +127,7 @@ Lemma sent_refl h g m : SI h g -> sent h g h g m (fun _ => false).
 Proof. intros Si. constructor; auto. Qed.
 
 Lemma sent_ext h g h' g' m (T T' : N -> bool) : (forall y, T y = T' y) -> sent h g h' g' m T -> sent h g h' g' m T'.
-Proof. intros E [A B C D F G]. constructor; auto. intros y. rewrite <- E. apply F. Qed.
+Proof. intros E [A B C D F G O H]. constructor; auto; intros y; rewrite <- E; auto. Qed.
 
 Lemma sent_live h g h' g' m T y : sent h g h' g' m T ->
   match get_sess h' y, get_sess h y with
@@ -148,6 +157,8 @@ Proof.
     destruct (coreo h g y) as [[[[k c] r] e]|]; [|reflexivity]. cbn [option_map upd4]. now rewrite Id.
   - intros y Hy. pose proof (sent_live _ _ _ _ _ _ y S1) as L. rewrite Hy in L.
     destruct (get_sess h1 y) eqn:E; [destruct L|]. rewrite (st_dead _ _ _ _ _ _ S2 y E). now apply S1.
+  - intros y Hy. apply orb_false_iff in Hy as [H1 H2]. rewrite (st_other _ _ _ _ _ _ S2 y H2). exact (st_other _ _ _ _ _ _ S1 y H1).
+  - intros HF. apply (st_hf _ _ _ _ _ _ S2). now apply (st_hf _ _ _ _ _ _ S1).
 Qed.
 
 Lemma fold_send m l : relm m -> forall h g, SI h g ->
@@ -201,9 +212,11 @@ Proof.
   constructor.
   - intros y s' Hs'. pose proof (sent_live _ _ _ _ _ _ y St) as L. rewrite Hs' in L.
     change (get_sess h1 y) with (get_sess h y) in L. destruct (get_sess h y) as [s|] eqn:Hs; [|destruct L].
-    destruct L as (K & C & Rm & E). destruct (ri_sess _ _ I y s Hs) as [Bn Vc Rp]. constructor.
+    destruct L as (K & C & Rm & E). destruct (ri_sess _ _ I y s Hs) as [Bn Vc Hh Rp]. constructor.
     + intros c Hc. rewrite (st_bind _ _ _ _ _ _ St). apply Bn. congruence.
     + intros V. rewrite C. apply Vc. congruence.
+    + apply (st_hf _ _ _ _ _ _ St) with y; [|exact Hs'].
+      intros z tz Hz. apply (ri_hf _ _ _ _ (ri_sess _ _ I z tz Hz)).
     + intros V. rewrite K in V. specialize (Rp V). rewrite Rm, E.
       destruct (s_room s) as [k2|] eqn:Hk2.
       * destruct Rp as (Nz & d & Hd & Hroom). split; [exact Nz|].
@@ -253,9 +266,9 @@ Lemma ri_nr_e (P : N -> Prop) h h' g :
 Proof.
   intros [S F] (Ss & R & Nx) Hd. constructor.
   - intros x s' Hs'. assert (Np : ~ P x) by (intros Hp; rewrite (Hd x Hp) in Hs'; discriminate).
-    destruct (Ss x s' Hs') as [[]|[(s & Hs & K & C & Rm & [_ Pe])|[V C]]].
+    destruct (Ss x s' Hs') as [[]|[(s & Hs & K & C & Rm & (_ & Pe & Hf))|(V & C & Hf)]].
     + eapply rix_olds; eauto.
-    + constructor; [intros c Hc; congruence|auto|intros V'; congruence].
+    + constructor; [intros c Hc; congruence|auto|exact Hf|intros V'; congruence].
   - intros x Hx. apply F. lia.
 Qed.
 
@@ -290,17 +303,17 @@ Proof.
       * intros E. injection E as <-. constructor; cbn [new_session s_conn s_kind s_room s_pending g_bind g_rep].
         -- intros c' E. injection E as <-. now rewrite N.eqb_refl.
         -- congruence.
+        -- apply hello_free_nil.
         -- intros _. cbn. apply F. apply next_id_gt.
-      * intros Ht. destruct (S y t Ht) as [Bn Vc Rp]. constructor; cbn [g_bind g_rep].
+      * intros Ht. destruct (S y t Ht) as [Bn Vc Hh Rp]. constructor; cbn [g_bind g_rep].
         -- intros c' Hc'. destruct (N.eqb_spec c' c) as [->|]; [exfalso; exact (Hc y t Ht Hc')|now apply Bn].
         -- exact Vc.
+        -- exact Hh.
         -- intros V. specialize (Rp V). unfold room_of. rewrite Hr. exact Rp.
     + intros x Hx. cbn [g_rep]. apply F. rewrite Hn in Hx. pose proof (next_id_gt h). unfold sid in Hx. lia.
 Qed.
 
 (* ------------------------------------------------------------------ hello: a resume flushes the queue *)
-Definition hello_free (l : list smsg) : Prop := forall u v, ~ In (SHello u v) l.
-
 Lemma gouts_flush_bind c l : forall g, hello_free l -> g_bind (gouts g (flush c l)) = g_bind g.
 Proof.
   induction l as [|m l IH]; intros g Hf; [reflexivity|]. cbn [flush map]. rewrite gouts_cons.
@@ -333,16 +346,15 @@ Qed.
 
 Lemma ri_resume h g c cn i : Inv h -> RI h g ->
   (forall y t, get_sess h y = Some t -> s_conn t <> Some c) ->
-  (forall n s, i = IdPriv n -> get_sess h n = Some s -> hello_free (s_pending s)) ->
   RI (fst (do_hello h c cn (HResume i))) (gouts g (snd (do_hello h c cn (HResume i)))).
 Proof.
-  intros Iv I Hc Hf. unfold do_hello.
+  intros Iv I Hc. unfold do_hello.
   assert (Qerr : forall e, qouts [ToConn c (SError e)]) by (intros e; apply qouts_cons; [intros ? ? E; injection E as <- <-; reflexivity|apply qouts_nil]).
   destruct (throttled h (c_addr cn) ACT_RESUME); [apply (ri_quiet h); [exact I|split; [apply nr_refl|apply Qerr]]|].
   destruct i as [n| | |]; try (apply (ri_quiet h); [exact I|split; [cbn [fst]; nrs; apply nr_refl|apply Qerr]]).
   destruct (get_sess h n) as [s|] eqn:Hs; [|apply (ri_quiet h); [exact I|split; [apply nr_refl|apply Qerr]]].
   destruct (is_virtual (s_kind s)) eqn:Hv; [apply (ri_quiet h); [exact I|split; [apply nr_refl|apply Qerr]]|].
-  specialize (Hf n s eq_refl Hs).
+  pose proof (ri_hf _ _ _ _ (ri_sess _ _ I n s Hs)) as Hf.
   (* the takeover *)
   assert (T : nres noex h (match s_conn s with
                            | Some c' => if N.eqb c' c then (h, [])
@@ -378,18 +390,20 @@ Proof.
   { split.
     - intros y t Np. rewrite Hg5. destruct (N.eqb_spec y n) as [->|Hne].
       + intros E. injection E as <-. assert (Hq : queue_closes s = false) by (destruct (queue_closes s); [exfalso; apply Np; auto|reflexivity]).
-        destruct (ri_sess _ _ I n s Hs) as [Bn Vc Rp]. constructor.
+        destruct (ri_sess _ _ I n s Hs) as [Bn Vc Hh Rp]. constructor.
         * intros c' E. cbn in E. injection E as <-. rewrite Hgb. cbn. now rewrite N.eqb_refl.
         * cbn. congruence.
+        * apply hello_free_nil.
         * intros _. specialize (Rp Hv). cbn [s1 s_room s_pending sess_pending sess_conn upd_sess]. cbn [replayT fold_left].
           rewrite Hgr, N.eqb_refl. unfold L. rewrite (upto_closing_none s Hq).
           destruct (s_room s) as [k|]; [|exact Rp]. destruct Rp as (Nz & d & Hd & Hroom). split; [exact Nz|]. exists d. split; [exact Hd|].
           intros r' Hr'. destruct B1 as (_ & Rr & _). destruct (Rr k r' Hr') as (r0 & Hr0 & T0). rewrite T0. now apply Hroom.
-      + intros Ht. destruct (ri_sess _ _ I1 y t Ht) as [Bn Vc Rp]. constructor.
+      + intros Ht. destruct (ri_sess _ _ I1 y t Ht) as [Bn Vc Hh Rp]. constructor.
         * intros c' Hc'. rewrite Hgb. cbn. destruct (N.eqb_spec c' c) as [->|]; [|now apply Bn].
-          exfalso. destruct B1 as (Ss & _ & _). destruct (Ss y t Ht) as [[]|[(t0 & Ht0 & _ & C0 & _)|[_ C0]]]; [|congruence].
+          exfalso. destruct B1 as (Ss & _ & _). destruct (Ss y t Ht) as [[]|[(t0 & Ht0 & _ & C0 & _)|(_ & C0 & _)]]; [|congruence].
           apply (Hc y t0 Ht0). congruence.
         * exact Vc.
+        * exact Hh.
         * intros V. specialize (Rp V). rewrite Hgr. destruct (N.eqb_spec y n); [contradiction|]. exact Rp.
     - intros x Hx. change (h_nextsid h5) with (h_nextsid h1) in Hx. destruct B1 as (_ & _ & Nx).
       rewrite Hgr. destruct (N.eqb_spec x n) as [->|]; [lia|]. apply (ri_fresh _ _ I). lia. }
@@ -432,7 +446,6 @@ Definition covered (h : hub) (o : op) : Prop :=
   match o with
   | OJoin _ _ _ _ | OInternal _ _ => False
   | ODeliver pos => match take_nth (N.to_nat pos) (h_bus h) with Some (p, _) => is_treq p | None => True end
-  | OHello _ (HResume (IdPriv n)) => forall s, get_sess h n = Some s -> hello_free (s_pending s)
   | _ => True
   end.
 
@@ -448,7 +461,7 @@ Proof.
   - match goal with |- NR _ _ ?H => change (NR (fun y => y = sid) h (put_sess h sid (sess_conn s None))) end.
     apply nr_put_ex; [reflexivity|apply nr_refl].
   - intros x s' -> Hs'. unfold get_sess in Hs'. cbn in Hs'. rewrite aget_aset_same in Hs'. injection Hs' as <-.
-    destruct (ri_sess _ _ I sid s Hs) as [Bn Vc Rp]. constructor; cbn; [intros c' E; discriminate|auto|].
+    destruct (ri_sess _ _ I sid s Hs) as [Bn Vc Hh Rp]. constructor; cbn; [intros c' E; discriminate|auto|exact Hh|].
     intros V. specialize (Rp V). exact Rp.
 Qed.
 
@@ -482,7 +495,7 @@ Proof.
       destruct (negb (N.eqb tok 0)); [apply (ri_quiet h'); [exact I'|split; [change (NR noex h' h'); apply nr_refl|apply Qerr]]|].
       destruct (h_nb h' <=? b); [apply (ri_quiet h'); [exact I'|split; [change (NR noex h' h'); apply nr_refl|apply Qerr]]|].
       now apply ri_register.
-    + apply ri_resume; auto. intros n s -> Hs. cbn in Cv. apply Cv. exact Hs.
+    + apply ri_resume; auto.
   - (* OMsg *) apply Q. cbn [step]. apply nr_with_session; [|apply nr_refl]. intros. apply nr_do_message, nr_refl.
   - (* OCtl *) apply Q. cbn [step]. apply nr_with_session; [|apply nr_refl]. intros.
     destruct (allowed_control s); [apply nr_do_message, nr_refl|split; [apply nr_refl|apply qouts_nil]].
